@@ -86,8 +86,11 @@ func (i *postingsIterator) Advance(number uint64) (segment.Posting, error) {
 		if err != nil {
 			return nil, err
 		}
-		// close the current term field reader before replacing it with a new one
-		_ = i.Close()
+		// the current term field reader is replaced in place by the new one. It
+		// must not be closed here: Close puts this very object into the
+		// snapshot's pool of recycled iterators while it is still in use
+		// (the next PostingsIterator call on the field would re-initialise it).
+		atomic.AddUint64(&i.snapshot.parent.stats.TotTermSearchersFinished, uint64(1))
 		*i = *(i2.(*postingsIterator))
 	}
 	segIndex, ldocNum := i.snapshot.segmentIndexAndLocalDocNumFromGlobal(number)
